@@ -42,16 +42,32 @@ def findings():
 
 
 def scan_cfg():
-    """The loop constants as the translator extracted them: ((default, cap, factor), recognised?).
+    """The loop constants and switches as the translator extracted them:
+    ((default, cap, factor, lossy, slot cursor), recognised?).
     When the source is no longer recognised the last known constants are used for the search."""
     src = open(os.path.join(LEAN, "FerrousSpec", "Gen", "ScanConsts.lean")).read()
-    m = re.search(r"def scanCfg : Ferrous\.Scan\.Cfg := ⟨(\d+), (\d+), (\d+), (true|false)⟩", src)
+    m = re.search(r"def scanCfg : Ferrous\.Scan\.Cfg := ⟨(\d+), (\d+), (\d+), (true|false), (true|false)⟩", src)
     if m:
-        return (int(m.group(1)), int(m.group(2)), int(m.group(3)), 1 if m.group(4) == "true" else 0), True
-    return (10, 1000, 10, 1), False
+        return (int(m.group(1)), int(m.group(2)), int(m.group(3)), 1 if m.group(4) == "true" else 0, 1 if m.group(5) == "true" else 0), True
+    return (10, 1000, 10, 0, 0), False
 
 
-def norm_count(count, cfg=(10, 1000, 10, 1)):
+# Pairs of names with the same scan_slot (FNV-1a 64 >> 11), found once by a birthday search over 2^29 eight-character
+# names: what the slot cursor needs to exercise "a page never ends inside a group of equal slots" on the real code.
+SLOT_COLLISIONS = [(a.encode(), b.encode()) for a, b in [
+    ('q103igmi', 'sgg3ah1b'), ('cvzyrgf4', '5e1hby03'), ('ovoyddyz', 'k4voe4dj'), ('hrkxiux1', '5q0amip1'), ('w0qjleai', 'hpm45b1h'),
+    ('wyopjidm', '0d0ivete'), ('2pjwkovp', 'qumvosvp'), ('hpiajdin', '5sbxnxqf'), ('qjoqinpg', '2gjnuzxo'), ('twftczm2', 'q1tfqh3i'),
+    ('2xgfmhjs', 'qmbqitrs'), ('zlbt3gf1', '4gshh1q4'), ('13iblpv0', 'vgodzof5'), ('hphqeuvq', '5senyyfq'), ('qtxdrthj', '3e2x1y3n'),
+    ('hyjphifn', '5zqytevv'), ('lrsjfytj', 'h4ipchh5'), ('v1qb3ypt', '5x1jgaka'), ('pe2zdbhw', '4uvb33p1'), ('n4dfe3wk', '4nmijpmx'),
+    ('5gzyjoav', 'hlapvcyn'), ('rsbskdin', 'o31offri')]]
+
+
+def scan_slot(name):
+    """`scan_slot` of engine.rs: FNV-1a 64 of the name, cut to 53 bits"""
+    return fnv1a(name) >> 11
+
+
+def norm_count(count, cfg=(10, 1000, 10, 0, 0)):
     return min(count if count != 0 else cfg[0], cfg[1])
 
 
@@ -356,6 +372,16 @@ def gen_desc(r, count, regime):
         for k in [x for xs in fam.values() for x in xs] + shortenings(r, expand_pattern(pat), 3):
             if k not in names and len(names) < 60:
                 names.append(k)
+    collide = []
+    if r.chance(1, 6):
+        # names with equal scan slots: a page of the slot cursor must not end between them
+        for a, b in [r.choice(SLOT_COLLISIONS) for _ in range(r.range(1, 3))]:
+            collide += [a, b]
+            for k in (a, b):
+                if k not in names and len(names) < 60 and r.chance(3, 4):
+                    names.append(k)
+        if pat is not None and r.chance(1, 2):
+            pat = r.choice([None, b"*", b"?" * 8, collide[0][:2] + b"*"])
     ty = None
     if kind == "keys" and r.chance(2, 5):
         ty = r.choice(TYPES).encode() if r.chance(9, 10) else r.choice([b"STRING", b"foo", b"", b"str\xff", b"Hash"])
@@ -365,7 +391,7 @@ def gen_desc(r, count, regime):
     # stable elements are never touched by the mutation batches
     stable = set(k for k in names if r.chance(1, 2))
     volatile = [k for k in names if k not in stable]
-    extra = [k for k in gen_names(r, r.range(2, 25)) if k not in stable and k not in names]
+    extra = [k for k in gen_names(r, r.range(2, 25)) + collide if k not in stable and k not in names]
     steps = []
     present = set(volatile)
     nsteps = 0 if regime == "fixed" else r.choice([1, 2, 3, 5, 8, 12])
@@ -401,7 +427,8 @@ class C19:
         self.impl = LineProc([os.environ.get("VERIF_C19_IMPL", os.path.join(IMPL_BIN, "impl_scan"))], "impl-scan")
         self.model = lean_driver("scan")
         self.cfg = scan_cfg()
-        if self.model.ask("cfg %d %d %d %d" % self.cfg[0]) != "ok":
+        self.slot = bool(self.cfg[0][4])          # cursor scheme of the tree: slot (True) or rank (False)
+        if self.model.ask("cfg %d %d %d %d %d" % self.cfg[0]) != "ok":
             raise InternalError("Lean driver refused the scan constants")
         self.findings = findings()
         self.oracle_failures = []     # (shape, what, desc, detail)
@@ -548,7 +575,7 @@ class C19:
         dup = False
         while True:
             snap = dict(truth)
-            view = sorted(k for k, a in snap.items() if in_view(k, a))
+            view = sorted((k for k, a in snap.items() if in_view(k, a)), key=(lambda k: (scan_slot(k), k)) if self.slot else None)
             snaps.append(snap)
             views.append(view)
             line = self.call_line(desc, cursor)
@@ -589,6 +616,15 @@ class C19:
             if len(set(n for n, _ in items)) < len(items) or any(n in set(x for bt in returned for x in bt) for n, _ in items):
                 dup = True
             returned.append([n for n, _ in items])
+            if self.slot:
+                slots_here = {}
+                for k in view:
+                    slots_here.setdefault(scan_slot(k), []).append(k)
+                got_now = set(n for n, _ in items)
+                for sl, grp in slots_here.items():
+                    if len(grp) >= 2 and any(k in got_now for k in grp):
+                        rep.count("iter.equal-slot-group-in-one-batch")
+                        rep.nontrivial(("equal-slot-group", kind, min(cnt, 3), len(grp), pat is not None, len(items) > mx))
             if nxt == 0:
                 break
             cursors.append(nxt)
@@ -623,7 +659,7 @@ class C19:
                         continue
                 # was its rank pushed below the cursor by a deletion between two calls?
                 drop = None
-                for i in range(len(views) - 1):
+                for i in range(len(views) - 1 if not self.slot else 0):
                     c = cursors[i + 1]
                     if views[i].index(k) >= c > views[i + 1].index(k):
                         gone = [hx(x) for x in views[i][:c] if x not in snaps[i + 1] or x not in views[i + 1]]
@@ -640,7 +676,11 @@ class C19:
             fails.append(("complete", "element present during the whole iteration was never returned although no key ranked below the cursor disappeared",
                           {"element": hx(k)}))
         # any key below the cursor deleted at all?  (the hypothesis of scan_complete_partial)
-        del_below = any(any(x not in views[i + 1] for x in views[i][:cursors[i + 1]]) for i in range(len(views) - 1))
+        del_below = (not self.slot) and any(any(x not in views[i + 1] for x in views[i][:cursors[i + 1]]) for i in range(len(views) - 1))
+        if self.slot:
+            # slot cursor: was anything at all deleted between two calls that lies before the cursor in the walk order?
+            if any(any(x not in views[i + 1] for x in views[i] if scan_slot(x) < cursors[i + 1]) for i in range(len(views) - 1)):
+                rep.count("iter.deletion-before-slot-cursor")
         outcome = "missed" if missed_known or missed_new else ("dup" if dup else "exact")
         rep.count("iter." + kind)
         rep.count("iter.outcome." + outcome)
@@ -915,6 +955,7 @@ def main(tier, seed):
                            "disagreements": c.disagreements[:10]}, no_input=True)
     finally:
         c.close()
+    rep.extra["cursor_scheme"] = "slot (scan_slot of the next element)" if c.slot else "rank in the list sorted by name"
     rep.extra["model_disagreements"] = len(c.disagreements)
     rep.extra["oracle_failures"] = len(c.oracle_failures)
     rep.extra["observations_outside_agreed_glob_fragment"] = c.deviations
